@@ -269,6 +269,25 @@ pub fn c01(ctx: &mut Ctx) {
         }
     }
     ctx.rep.count("cases.byte_class", n_bytes);
+    // (2b) several DIFFERENT ambiguous bytes next to each other and in one input (N, an IUPAC letter, lower-case n, a dash)
+    {
+        let mut sh = ctx.shard;
+        let mut todo: Vec<Vec<u8>> = Vec::new();
+        for_each_string(b"ACTNRn-", 0, ctx.pick(6, 7), |s| {
+            if sh.mine() && s.iter().filter(|b| !S4.contains(b)).count() >= 2 {
+                todo.push(s.to_vec());
+            }
+        });
+        let mut n2 = 0u64;
+        for s in &todo {
+            for k in 1..=3 {
+                c01_case(ctx, "mixed-ambiguous", s, k);
+                n2 += 1;
+                ctx.rep.nontrivial += 1;
+            }
+        }
+        ctx.rep.count("cases.mixed_ambiguous", n2);
+    }
 
     // (3) transition cover of the reference machine
     let kmax_t = ctx.pick(7, 9);
@@ -614,6 +633,23 @@ pub fn c02(ctx: &mut Ctx) {
             }
         }
     }
+    // several different ambiguous bytes in one input, also next to each other
+    {
+        let mut sh = ctx.shard;
+        let mut todo: Vec<Vec<u8>> = Vec::new();
+        for_each_string(b"ACTNRn-", 0, ctx.pick(5, 6), |s| {
+            if sh.mine() && s.iter().filter(|b| !S4.contains(b)).count() >= 2 {
+                todo.push(s.to_vec());
+            }
+        });
+        for s in &todo {
+            for k in 1..=3 {
+                c02_stream(ctx, s, k);
+                ns += 1;
+                ctx.rep.nontrivial += 1;
+            }
+        }
+    }
     // long inputs
     let mut sh = ctx.shard;
     let mut longs: Vec<Vec<u8>> = vec![long_input(8193, 2), long_input(70_000, 4), clean_run_input()];
@@ -818,6 +854,26 @@ pub fn minimiser_spaces(ctx: &mut Ctx, which: u32) {
     ctx.rep.count("class.tie_in_first_window", c_tie);
     ctx.rep.count("class.change_at_last_base", c_lastchange);
     ctx.rep.count("class.trailing_stretch_shorter_than_w", c_trailing);
+
+    // (1b) several different ambiguous bytes in one input, also next to each other
+    {
+        let mut sh = ctx.shard;
+        let mut todo: Vec<Vec<u8>> = Vec::new();
+        for_each_string(b"ATNRn-", 0, ctx.pick(6, 7), |s| {
+            if sh.mine() && s.iter().filter(|b| !S4.contains(b)).count() >= 2 {
+                todo.push(s.to_vec());
+            }
+        });
+        let mut n2 = 0u64;
+        for s in &todo {
+            for (w, m) in [(1usize, 1usize), (2, 1), (2, 2), (3, 1), (3, 2), (3, 3)] {
+                run(ctx, "mixed-ambiguous", s, w, m);
+                n2 += 1;
+                ctx.rep.nontrivial += 1;
+            }
+        }
+        ctx.rep.count("cases.mixed_ambiguous", n2);
+    }
 
     // (2) transition cover: states = clean suffixes of length <= w
     let ws: &[usize] = ctx.pick(&[6, 7][..], &[6, 7, 8][..]);
